@@ -4,3 +4,4 @@ import Proofs.Metadata
 import Proofs.Assign
 import Proofs.FileStore
 import Proofs.PathsStore
+import Proofs.Group
